@@ -1,4 +1,5 @@
 import FstVerif.Proofs.Lookup
+import FstVerif.Proofs.EndToEnd
 /-
 C02 — point lookups, for every probe. Statements here, proofs in
 Proofs/Lookup.lean. The theorems are about any node access that represents a
@@ -25,6 +26,32 @@ theorem C02_contains (hg : GoodStore s den) (hr : Represents acc s) (root : Nat)
 /-- the denotation is strictly sorted, so `lookupKV` has at most one candidate per key -/
 theorem C02_den_sorted (hg : GoodStore s den) (a : Nat) (h : a = 0 ∨ ∃ n, (a, n) ∈ s) :
     SortedKV (den a) := den_sorted hg a h
+
+/-- END TO END, on the bytes of the file a builder writes (any geometry, any sorted map,
+u64 limits only): `get` / `contains_key` answer every probe by the inserted map -/
+theorem C02_file (rows cols ty : Nat) (hty : ty < 2^64) (kvs : KV) (hs : SortedKV kvs)
+    (hv : ∀ kv ∈ kvs, kv.2 < 2^64) (hn : kvs.length < 2^64) :
+    ∃ s bytes, insertAll (BState.new rows cols) kvs = .ok s ∧ s.fileBytes ty = .ok bytes ∧
+      (bytes.length < 2^64 → ∃ m, fstNew (Src.ofList bytes) = .ok m ∧
+        (∀ key, fstGet (byteAccess 3 (Src.ofList bytes)) m.rootAddr key = some (lookupKV kvs key)) ∧
+        (∀ key, fstContains (byteAccess 3 (Src.ofList bytes)) m.rootAddr key =
+          some (kvs.any fun kv => kv.1 == key))) := by
+  obtain ⟨s, bytes, h1, h2, h⟩ := E2E.e2e_map rows cols ty hty kvs hs hv hn
+  exact ⟨s, bytes, h1, h2, fun hsz => by
+    obtain ⟨m, hm, _, _, _, _, _, hg, hc⟩ := h hsz
+    exact ⟨m, hm, hg, hc⟩⟩
+
+/-- the byte-level `find_input` (linear scan over the reversed storage order, and the
+256-entry index for nodes with more than 32 transitions, incl. exactly 256) finds the
+transition on a byte iff there is one -/
+theorem C02_find_input (v : Nat) (n : BNode) (lastAddr start : Nat) (enc pre post : List UInt8)
+    (hv : 2 ≤ v ∨ n.trans.length ≤ Gen.TRANS_INDEX_THRESHOLD)
+    (wf : WFNode n lastAddr start) (henc : compileNode n lastAddr start = some enc)
+    (hpre : pre.length = start) :
+    ∃ rn, nodeNew v (Src.ofList (pre ++ enc ++ post)) (start + enc.length - 1) = some rn ∧
+      ∀ b, rn.findInput (Src.ofList (pre ++ enc ++ post)) b = some (transIdx n b) := by
+  obtain ⟨_, rn, h1, _, _, _, _, _, _, h8, _⟩ := codec_roundtrip v n lastAddr start enc pre post hv wf henc hpre
+  exact ⟨rn, h1, h8⟩
 
 /-- non-vacuity: a concrete three-node store satisfies the hypotheses -/
 example : GoodStore LookupExample.exStore LookupExample.exDen := LookupExample.exGood
